@@ -80,6 +80,10 @@ class Rule:
         self.has_mode = True
         self.guess: T.Optional[str] = None      # destination id within the implicit-tag family (see guess_rules)
         self.gkind: T.Optional[str] = None
+        self.gone_after_setup: T.List[str] = []             # source-relative paths that disappear between `meson setup` and the install
+        self.optional_dirs: T.List[T.Tuple[str, str]] = []  # directories that the docs neither demand nor forbid (see _r_dotdot)
+        self.may_reject = False                 # `meson setup` may refuse the rule (counted, nothing is compared then)
+        self.key_class: T.Optional[str] = None  # input class that names the violation keys of the projects holding this rule
 
 
 def _modekw(mode: str) -> str:
@@ -489,6 +493,126 @@ def _r_subdir_name(shape: str, strip: str, excl: str, dirkind: str):
     return build
 
 
+# ------------------------------------------------------------------------------------------------------------
+# install_data() of a source that is a SYMLINK (family Y).  install_data.yaml, follow_symlinks (default true): "If true,
+# dereferences links and copies their target instead"; false: the link is installed as a link - under the name the rule gives
+# it (`rename`), whether or not its target (still) exists: a link is copied without looking at what it points to.
+# The target may disappear between `meson setup` and `meson install`; what a FOLLOWED link whose target is gone installs is
+# not specified (that combination is not generated).
+LINK_FOLLOWS = ('unset', 'true', 'false')
+LINK_CELLS = [(f, rn, 'kept') for f in LINK_FOLLOWS for rn in ('same-name', 'renamed')] + \
+             [('false', rn, 'target-gone') for rn in ('same-name', 'renamed')]
+
+
+def link_rule_id(follow: str, rename: str, tstate: str) -> str:
+    return 'data_link:follow-%s:%s:%s' % (follow, rename, tstate)
+
+
+def _r_data_link(follow: str, rename: str, tstate: str):
+    def build(s, m, ab, prefix='/usr'):
+        r = Rule(link_rule_id(follow, rename, tstate), s, m)
+        r.key_class = 'data-symlink:follow-%s:%s:%s' % (follow, rename, tstate)
+        ln, tg, new = nm(s, 'dlnk', '.txt'), 'lt/' + nm(s, 'dtgt', '.txt'), nm(s, 'dnew', '.txt')
+        r.files[tg] = ('behind a link\n', 0o640)
+        r.links[ln] = tg
+        d = 'share/' + nm(s, 'ldst')
+        kw = ''
+        if rename == 'renamed':
+            kw += ', rename: ' + q(new)
+        if follow != 'unset':
+            kw += ', follow_symlinks: ' + follow
+        r.snippet = 'install_data(%s, install_dir: %s%s%s)' % (q(ln), q(d), kw, _modekw(m))
+        w = ('rel', d + '/' + (new if rename == 'renamed' else ln))
+        if follow == 'false':
+            r.entries.append(Entry(w, 'link', r, target=tg, oc_unspec=True))
+        else:
+            r.entries.append(Entry(w, 'file', r, src=('src', tg), mode=MODE_BITS[m]))
+        if tstate == 'target-gone':
+            r.gone_after_setup.append(tg)
+        r.plan.append(('data', ('src', ln), w, None))
+        return r
+    return build
+
+
+LINK_BUILDERS: T.Dict[str, T.Callable] = {link_rule_id(*c): _r_data_link(*c) for c in LINK_CELLS}
+
+
+# ------------------------------------------------------------------------------------------------------------
+# install_dir spelled with '..' components (family D).  The property: relative directories are taken under the prefix, absolute
+# ones re-rooted under DESTDIR, and the install "writes only beneath $DESTDIR".  The directory a spelling denotes is the one its
+# lexical normalisation names ('/' is its own parent): share/q/../r is share/r, /opt/../../x is /x, and a relative directory that
+# climbs above the root through the prefix ('../' once more than the prefix is deep) is /x as well; under DESTDIR these are
+# DESTDIR/<prefix>/share/r and DESTDIR/x.  Not specified, hence optional: whether the directory named BEFORE a '..' (share/q,
+# /opt, the prefix) is created on the way - if it is, the log clause applies to it like to every created directory.  An
+# implementation may also refuse such a directory at `meson setup` (counted, nothing compared).
+DOTDOT_KINDS = ('data', 'subdir', 'emptydir', 'symlink')
+DOTDOT_SPELLINGS = ('rel-inside', 'abs-inside', 'rel-above-root', 'abs-above-root')
+
+
+def dotdot_rule_id(kind: str, spelling: str) -> str:
+    return 'dotdot:%s:%s' % (kind, spelling)
+
+
+def _r_dotdot(kind: str, spelling: str):
+    def build(s, m, ab, prefix='/usr'):
+        r = Rule(dotdot_rule_id(kind, spelling), s, m)
+        r.key_class = 'install_dir-dotdot:%s' % spelling
+        r.may_reject = True
+        r.has_mode = False
+        depth = len([x for x in prefix.split('/') if x])
+        if spelling == 'rel-inside':
+            d = 'share/' + nm(s, 'dq') + '/../' + nm(s, 'dr')
+            wk, nd = 'rel', 'share/' + nm(s, 'dr')
+            r.optional_dirs.append(('rel', 'share/' + nm(s, 'dq')))
+        elif spelling == 'abs-inside':
+            d = ab + '/etc/' + nm(s, 'dq') + '/../' + nm(s, 'dr')
+            wk, nd = 'abs', ab + '/etc/' + nm(s, 'dr')
+            r.optional_dirs.append(('abs', ab + '/etc/' + nm(s, 'dq')))
+        elif spelling == 'rel-above-root':
+            assert not ab
+            d = '../' * (depth + 1) + 'escaped-rel'
+            wk, nd = 'abs', '/escaped-rel'
+            r.optional_dirs.append(('abs', prefix))
+        elif spelling == 'abs-above-root':
+            assert not ab
+            d = '/opt/../../escaped-abs'
+            wk, nd = 'abs', '/escaped-abs'
+            r.optional_dirs.append(('abs', '/opt'))
+        else:
+            raise ValueError(spelling)
+        if kind == 'data':
+            f = nm(s, 'ddat', '.txt')
+            r.files[f] = ('dotdot data\n', 0o644)
+            r.snippet = 'install_data(%s, install_dir: %s)' % (q(f), q(d))
+            w = (wk, nd + '/' + f)
+            r.entries.append(Entry(w, 'file', r, src=('src', f)))
+            r.plan.append(('data', ('src', f), w, None))
+        elif kind == 'subdir':
+            top, a, b = nm(s, 'dtree'), nm(s, 'da', '.txt'), nm(s, 'db', '.txt')
+            r.files[top + '/' + a] = ('dotdot a\n', 0o644)
+            r.files[top + '/in/' + b] = ('dotdot b\n', 0o644)
+            r.snippet = 'install_subdir(%s, install_dir: %s)' % (q(top), q(d))
+            for sub in ('', '/in'):
+                r.entries.append(Entry((wk, nd + '/' + top + sub), 'dir', r))
+            for rel in (a, 'in/' + b):
+                r.entries.append(Entry((wk, nd + '/' + top + '/' + rel), 'file', r, src=('src', top + '/' + rel)))
+            r.plan.append(('install_subdirs', ('src', top), (wk, nd + '/' + top), None))
+        elif kind == 'emptydir':
+            r.snippet = 'install_emptydir(%s)' % q(d + '/' + nm(s, 'dempty'))
+            r.entries.append(Entry((wk, nd + '/' + nm(s, 'dempty')), 'dir', r))
+        elif kind == 'symlink':
+            ln = nm(s, 'dlink')
+            r.snippet = 'install_symlink(%s, pointing_to: %s, install_dir: %s)' % (q(ln), q('../dtarget'), q(d))
+            r.entries.append(Entry((wk, nd + '/' + ln), 'link', r, target='../dtarget'))
+        else:
+            raise ValueError(kind)
+        return r
+    return build
+
+
+DOTDOT_BUILDERS: T.Dict[str, T.Callable] = {dotdot_rule_id(k, sp): _r_dotdot(k, sp) for k in DOTDOT_KINDS for sp in DOTDOT_SPELLINGS}
+
+
 NAME_BUILDERS: T.Dict[str, T.Callable] = {
     name_rule_id(sh, st, ex, dk): _r_subdir_name(sh, st, ex, dk)
     for sh in NAME_SHAPES for st in NAME_STRIPS for ex in NAME_EXCLS for dk in NAME_DIRKINDS}
@@ -713,6 +837,10 @@ class Project:
         self.links: T.Dict[str, str] = {}
         self.entries: T.List[Entry] = []
         self.plan = []
+        self.gone_after_setup = [p for r in rules for p in r.gone_after_setup]
+        self.optional_dirs = [d for r in rules for d in r.optional_dirs]
+        self.may_reject = any(r.may_reject for r in rules)
+        self.key_class = next((r.key_class for r in rules if r.key_class), None)
         lines = ["project('proj'%s)" % (", 'c'" if any(r.rid in ('exe', 'shlib', 'stlib') for r in rules) else '')]
         for r in rules:
             if r.snippet:
@@ -750,6 +878,8 @@ def make_project(rules: T.Sequence[T.Tuple[str, str, str]], absbase: str, with_s
         if rid.startswith('guess:'):
             assert guess is not None
             out += guess_rules(rid.split(':', 1)[1], s, m, absbase, prefix, DIRSETS[guess['dirset']], guess.get('only'))
+        elif rid in LINK_BUILDERS or rid in DOTDOT_BUILDERS:
+            out.append((LINK_BUILDERS.get(rid) or DOTDOT_BUILDERS[rid])(s, m, absbase, prefix=prefix))
         else:
             out.append((BUILDERS.get(rid) or EXTRA_BUILDERS.get(rid) or NAME_BUILDERS[rid])(s, m, absbase))
     return Project(out, with_sub, sub_style)
